@@ -743,7 +743,7 @@ func (x *Exec) evalIndex(st *State, e *ast.IndexExpr) *Term {
 			i := x.eval(st, e.Index)
 			x.oblige(st, "idx", "", And(Le(IntLit(0), i), Lt(i, x.strLen(s))), e)
 			r := x.app("s.at", SInt, s, i)
-			x.axiom(And(Le(IntLit(0), r), Le(r, IntLit(255))))
+			x.axiomIfClosed(And(Le(IntLit(0), r), Le(r, IntLit(255))))
 			return r
 		}
 	case *types.Array:
